@@ -2581,7 +2581,17 @@ class WorkflowGraph(object):
             variable_substitute(bool): Whether to perform variable substitution, optional for a primitive graph
                 but required for a replicated one
         """
-        concrete = experiment.model.frontends.flowir.FlowIRConcrete(flowir, platform, documents)
+        try:
+            concrete = experiment.model.frontends.flowir.FlowIRConcrete(flowir, platform, documents)
+        except experiment.model.errors.ExperimentInvalidConfigurationError:
+            raise
+        except Exception as e:
+            # A malformed definition (e.g. duplicate component identifiers, a wrongly typed name/stage/references
+            # field) makes the FlowIRConcrete constructor raise. Report it the same way that loading the same
+            # definition from a package does (FlowIRExperimentConfiguration._load_concrete/_try_report_errors)
+            raise experiment.model.errors.ExperimentInvalidConfigurationError(
+                'Errors when loading configuration',
+                experiment.model.errors.FlowIRConfigurationErrors([e], None))
 
         exp_conf = experiment.model.conf.FlowIRExperimentConfiguration(
             concrete=concrete, path=None, is_instance=False, primitive=primitive, manifest=manifest,
